@@ -1,8 +1,8 @@
 (* C13 - global statistics equal the statistics of the union of all ranks' samples, for every
    operand order and association the MPI library may use for the user-defined reduction.
    `combine` is the GENERATED body of sc_stats_mpifunc (Gen/StatsC13.v). *)
-From Coq Require Import ZArith List Bool Permutation.
-From ScV Require Import Base.CInt Gen.StatsC13 C13.StatsModel C13.StatsProofs.
+From Coq Require Import ZArith List Bool Permutation QArith.
+From ScV Require Import Base.CInt Gen.StatsC13 Gen.StatsVarC13 C13.StatsModel C13.StatsProofs C13.VarModel C13.VarGen C13.VarProofs.
 Import ListNotations.
 Local Open Scope Z_scope.
 
@@ -60,4 +60,228 @@ Example C13_nonvacuous :
   eval (Node (Node (Leaf c) (Leaf a)) (Leaf e)) = mk 5 21 157 (-3) 7 2 0.
 Proof.
   cbv zeta. split; [repeat (apply Forall_cons; [apply local_wf|]); apply Forall_nil|]. split; vm_compute; reflexivity.
+Qed.
+
+
+(* ====================================================================================================================
+   The per-variable object sc_statinfo_t and its protocol (C13/VarModel.v).
+   Part 1 - tie T1: every transition of the state machine is the definition GENERATED from src/sc_statistics.c
+   (Gen/StatsVarC13.v).  Doubles are exact numbers; conversions of counts and ranks are assumed in range.
+   ==================================================================================================================== *)
+Theorem C13_gen_set1_ext : forall value variable copy group prio pid dup s n,
+  var_set1_ext value variable copy group prio (n_var n) (n_owned n) pid dup =
+  let s' := set1 value s in let n' := name_set variable copy group prio dup n in
+  (v_dirty s', v_count s', v_sum s', v_sq s', v_min s', v_max s', n_var n', n_owned n', n_group n', n_prio n',
+   b2z (negb (copy =? 0)), (if copy =? 0 then 0 else pid), (if copy =? 0 then 0 else variable)).
+Proof. exact gen_set1_ext. Qed.
+Print Assumptions C13_gen_set1_ext.
+
+Theorem C13_gen_init_ext : forall variable copy group prio pid dup s n,
+  var_init_ext variable copy group prio (n_var n) (n_owned n) pid dup =
+  let s' := init s in let n' := name_set variable copy group prio dup n in
+  (v_dirty s', v_count s', v_sum s', v_sq s', v_min s', v_max s', n_var n', n_owned n', n_group n', n_prio n',
+   b2z (negb (copy =? 0)), (if copy =? 0 then 0 else pid), (if copy =? 0 then 0 else variable)).
+Proof. exact gen_init_ext. Qed.
+Print Assumptions C13_gen_init_ext.
+
+(* sc_stats_reset marks the variable dirty and zeroes count, sums, min, max whatever reset_vgp is *)
+Theorem C13_gen_reset : forall vgp pid s n,
+  var_reset vgp (n_var n) (n_owned n) (n_group n) (n_prio n) pid group_all prio_all =
+  let s' := reset s in let n' := name_reset vgp n in
+  (v_dirty s', v_count s', v_sum s', v_sq s', v_min s', v_max s', n_var n', n_owned n', n_group n', n_prio n',
+   b2z (name_reset_frees vgp n), (if name_reset_frees vgp n then pid else 0), (if name_reset_frees vgp n then n_owned n else 0)).
+Proof. exact gen_reset. Qed.
+Print Assumptions C13_gen_reset.
+
+Theorem C13_gen_group_prio_all : sc_stats_group_all_value 0 = group_all /\ sc_stats_prio_all_value 0 = prio_all.
+Proof. exact gen_group_prio_all. Qed.
+Print Assumptions C13_gen_group_prio_all.
+
+Theorem C13_gen_short_forms : forall ga pa,
+  var_set1_copy = 0 /\ var_set1_group ga = ga /\ var_set1_prio pa = pa /\
+  var_init_copy = 0 /\ var_init_group ga = ga /\ var_init_prio pa = pa.
+Proof. exact gen_short_forms. Qed.
+Print Assumptions C13_gen_short_forms.
+
+Theorem C13_gen_accumulate : forall value s, in_s64 (v_count s + 1) ->
+  var_accumulate value (v_dirty s) (v_count s) (v_sum s) (v_sq s) (v_min s) (v_max s) = nums (accumulate value s).
+Proof. exact gen_accumulate. Qed.
+Print Assumptions C13_gen_accumulate.
+
+Theorem C13_gen_compute1_prep : forall s,
+  var_compute1_prep (v_dirty s) (v_count s) (v_sum s) (v_sq s) (v_min s) (v_max s) = nums (prep1 s).
+Proof. exact gen_compute1_prep. Qed.
+Print Assumptions C13_gen_compute1_prep.
+
+(* packing: ONE memset of 7 * 8 bytes at element 7 * i for a clean variable, the seven slots of `pack rank s` otherwise *)
+Theorem C13_gen_compute_pack : forall s rank flatin i f0 f1 f2 f3 f4 f5 f6, in_s32 (7 * i) ->
+  var_compute_pack (v_dirty s) (v_count s) (v_sum s) (v_sq s) (v_min s) (v_max s) rank flatin i f0 f1 f2 f3 f4 f5 f6 =
+  if v_dirty s =? 0 then (1, flatin + 7 * i, 0, 7 * 8, f0, f1, f2, f3, f4, f5, f6)
+  else let p := pack rank s in (0, 0, 0, 0, cnt p, sm p, sq p, mn p, mx p, mnr p, mxr p).
+Proof. exact gen_compute_pack. Qed.
+Print Assumptions C13_gen_compute_pack.
+
+(* post-processing: all eight integer-valued fields are those of `post`; the five floating outputs are the terms
+   `post_codes` over the parameters fdiv / fsqrt (any functions) *)
+Theorem C13_gen_compute_post : forall fdiv fsqrt s g a v sd vm sdm,
+  in_s64 (cnt g) -> in_s32 (mnr g) -> in_s32 (mxr g) ->
+  var_compute_post fdiv fsqrt (v_dirty s) (v_count s) (v_sum s) (v_sq s) (v_min s) (v_max s) (v_minr s) (v_maxr s) a v sd vm sdm
+                   (cnt g) (sm g) (sq g) (mn g) (mx g) (mnr g) (mxr g) =
+  let s' := post s g in
+  let '(a', v', sd', vm', sdm') := post_codes fdiv fsqrt (v_dirty s) (cnt g) (sm g) (sq g) a v sd vm sdm in
+  (v_dirty s', v_count s', v_sum s', v_sq s', v_min s', v_max s', v_minr s', v_maxr s', a', v', sd', vm', sdm').
+Proof. exact gen_compute_post. Qed.
+Print Assumptions C13_gen_compute_post.
+
+(* the arithmetic of average / variance (SC_MAX (.., 0.)) / variance_mean over the rationals *)
+Theorem C13_gen_derived : forall s q c, var_derived_q (inject_Z s) (inject_Z q) (inject_Z c) = derived s q c.
+Proof. exact gen_derived. Qed.
+Print Assumptions C13_gen_derived.
+
+(* the record stride 7 everywhere it occurs, the commutativity flag, the count of the reduction *)
+Theorem C13_gen_stride : forall flat nvars, 0 <= nvars -> in_s32 (14 * nvars) ->
+  compute_alloc_bytes nvars = 2 * (nvars * (7 * 8)) /\
+  compute_flatin flat = flat /\ compute_flatout flat nvars = flat + 7 * nvars /\
+  compute_type_count = 7 /\ compute_op_commute = 1 /\ compute_allreduce_count nvars = nvars /\
+  compute_nompi_copy_bytes nvars = nvars * (7 * 8).
+Proof. exact gen_stride. Qed.
+Print Assumptions C13_gen_stride.
+
+(* ====================================================================================================================
+   Part 2 - histories.  Ghost of a rank: None = clean, Some xs = dirty with the samples xs contributed since its last
+   init / reset / set1.
+   ==================================================================================================================== *)
+(* the fields of a dirty variable are exactly the packed record of its samples, along any legal sequence of calls *)
+Theorem C13_calls_invariant : forall ops s p, Inv s p -> legal p ops -> Inv (run_ops s ops) (grun p ops).
+Proof. exact run_inv. Qed.
+Print Assumptions C13_calls_invariant.
+
+(* closed form of the ghost: after `.. setter, accumulate v1, .., accumulate vn` it is the setter's base ++ [v1 .. vn] *)
+Theorem C13_since_last_setter : forall p pre o b vs, setter_base o = Some b ->
+  grun p (pre ++ o :: map OAcc vs) = Some (b ++ vs).
+Proof. exact grun_since_last_setter. Qed.
+Print Assumptions C13_since_last_setter.
+
+(* the specification `good` of the reduction over the packed records IS the statistics of the union of the samples:
+   count, exact sums, minimum / maximum, lowest rank attaining each *)
+Theorem C13_union_statistics : forall ps g, good (locs_from 0 ps) g -> ustats ps g.
+Proof. exact good_ustats. Qed.
+Print Assumptions C13_union_statistics.
+
+(* one round, every reduction tree over every arrangement (each rank possibly a different one) *)
+Theorem C13_round : forall sts ps opss sts2,
+  Forall2 Inv sts ps -> legal_all ps opss -> round_rel sts opss sts2 ->
+  let ps1 := grun_all ps opss in
+  Forall2 Inv sts2 (ground ps opss) /\
+  forall i s1 p1 s2, nth_error (run_all sts opss) i = Some s1 -> nth_error ps1 i = Some p1 -> nth_error sts2 i = Some s2 ->
+    match p1 with
+    | None => s2 = s1
+    | Some _ => match union ps1 with [] => s2 = zero_dirty | _ :: _ => holds_union ps1 s2 end
+    end.
+Proof. exact round_sound. Qed.
+Print Assumptions C13_round.
+
+(* any number of rounds: after the last compute of ANY history (hence after every compute) *)
+Theorem C13_history_union : forall sts ps rounds opss sts',
+  Forall2 Inv sts ps -> legal_hist ps (rounds ++ [opss]) -> hist sts (rounds ++ [opss]) sts' ->
+  let ps1 := grun_all (ghist ps rounds) opss in
+  Forall2 Inv sts' (ghist ps (rounds ++ [opss])) /\
+  exists stsN, hist sts rounds stsN /\
+  forall i p1 s2, nth_error ps1 i = Some p1 -> nth_error sts' i = Some s2 ->
+    match p1 with
+    | None => nth_error (run_all stsN opss) i = Some s2
+    | Some _ => match union ps1 with [] => s2 = zero_dirty | _ :: _ => holds_union ps1 s2 end
+    end.
+Proof. exact history_union. Qed.
+Print Assumptions C13_history_union.
+
+Theorem C13_history_invariant : forall rounds sts ps sts',
+  Forall2 Inv sts ps -> legal_hist ps rounds -> hist sts rounds sts' -> Forall2 Inv sts' (ghist ps rounds).
+Proof. exact history_inv. Qed.
+Print Assumptions C13_history_invariant.
+
+Theorem C13_history_round : forall sts ps rounds opss sts',
+  Forall2 Inv sts ps -> legal_hist ps (rounds ++ [opss]) -> hist sts (rounds ++ [opss]) sts' ->
+  exists stsN, hist sts rounds stsN /\ Forall2 Inv stsN (ghist ps rounds) /\ legal_all (ghist ps rounds) opss /\
+               round_rel stsN opss sts'.
+Proof. exact history_round. Qed.
+Print Assumptions C13_history_round.
+
+(* all ranks that had the variable dirty hold the SAME state afterwards (all eleven fields) *)
+Theorem C13_dirty_ranks_agree : forall sts ps opss sts2 i j si sj a b,
+  Forall2 Inv sts ps -> legal_all ps opss -> round_rel sts opss sts2 ->
+  nth_error (grun_all ps opss) i = Some (Some a) -> nth_error (grun_all ps opss) j = Some (Some b) ->
+  nth_error sts2 i = Some si -> nth_error sts2 j = Some sj -> si = sj.
+Proof. exact dirty_ranks_agree. Qed.
+Print Assumptions C13_dirty_ranks_agree.
+
+(* a variable clean on a rank that does not touch it keeps all its fields *)
+Theorem C13_clean_untouched : forall sts ps opss sts2 i s s2,
+  Forall2 Inv sts ps -> legal_all ps opss -> round_rel sts opss sts2 ->
+  nth_error sts i = Some s -> nth_error ps i = Some None -> nth_error opss i = Some [] -> nth_error sts2 i = Some s2 ->
+  s2 = s.
+Proof. exact clean_untouched. Qed.
+Print Assumptions C13_clean_untouched.
+
+(* reset, then nothing, on one rank; samples elsewhere: the rank takes part (dirty, no sample) and holds the union's numbers *)
+Theorem C13_reset_then_nothing : forall sts ps opss sts2 i s p pre s2,
+  Forall2 Inv sts ps -> legal_all ps opss -> round_rel sts opss sts2 ->
+  nth_error sts i = Some s -> nth_error ps i = Some p -> nth_error opss i = Some (pre ++ [OReset]) -> nth_error sts2 i = Some s2 ->
+  union (grun_all ps opss) <> [] ->
+  nth_error (grun_all ps opss) i = Some (Some []) /\ holds_union (grun_all ps opss) s2.
+Proof. exact reset_then_nothing. Qed.
+Print Assumptions C13_reset_then_nothing.
+
+(* no sample anywhere: the variable stays dirty with count 0 (as the code does), ready for further accumulation *)
+Theorem C13_zero_count_stays_dirty : forall sts ps opss sts2 i s p ops xs s2,
+  Forall2 Inv sts ps -> legal_all ps opss -> round_rel sts opss sts2 ->
+  nth_error sts i = Some s -> nth_error ps i = Some p -> nth_error opss i = Some ops -> nth_error sts2 i = Some s2 ->
+  grun p ops = Some xs -> union (grun_all ps opss) = [] ->
+  s2 = zero_dirty /\ nth_error (ground ps opss) i = Some (Some []).
+Proof. exact zero_count_stays_dirty. Qed.
+Print Assumptions C13_zero_count_stays_dirty.
+
+(* the executable round used in the correspondence run is one of the rounds the theorems speak about *)
+Theorem C13_round_exec_is_round : forall sts opss, sts <> [] -> length sts = length opss -> round_rel sts opss (round_exec sts opss).
+Proof. exact round_exec_is_round. Qed.
+Print Assumptions C13_round_exec_is_round.
+
+(* derived outputs, exact: min <= average <= max, average = sum / count, variance >= 0, variance_mean = variance / count *)
+Theorem C13_union_derived : forall ps s, union ps <> [] -> holds_union ps s ->
+  (inject_Z (v_min s) <= v_avg s)%Q /\ (v_avg s <= inject_Z (v_max s))%Q /\
+  (v_avg s == inject_Z (v_sum s) / inject_Z (v_count s))%Q /\ (0 <= v_var s)%Q /\
+  (v_varm s == v_var s / inject_Z (v_count s))%Q.
+Proof. exact union_derived. Qed.
+Print Assumptions C13_union_derived.
+
+(* sc_stats_compute1: on a dirty variable the single sample sum_values; on a CLEAN variable it overwrites count,
+   sum_squares, min, max although the documentation says "Only updates dirty variables" (witness) *)
+Theorem C13_compute1_dirty : forall s xs, Inv s (Some xs) -> Inv (prep1 s) (Some [zsum xs]).
+Proof. exact compute1_dirty. Qed.
+Print Assumptions C13_compute1_dirty.
+
+Theorem C13_compute1_clean_refuted : exists s g, v_dirty s = 0 /\ post (prep1 s) g <> s.
+Proof. exact compute1_clean_refuted. Qed.
+Print Assumptions C13_compute1_clean_refuted.
+
+(* non-vacuity: three ranks, three rounds.  Round 1: samples {5, 7} / none (init only) / set1 -3.  Round 2: rank 0 leaves the
+   variable clean, rank 1 resets and contributes nothing, rank 2 resets and accumulates 4.  Round 3: ranks 0 and 1 init
+   without samples, rank 2 clean: no sample at all, the variable stays dirty with count 0 on ranks 0 and 1. *)
+Example C13_history_nonvacuous :
+  let rounds := [[[OInit; OAcc 5; OAcc 7]; [OInit]; [OSet1 (-3)]]; [[]; [OReset]; [OReset; OAcc 4]]; [[OInit]; [OInit]; []]] in
+  let ps0 := [None; None; None] in let sts0 := [vzero; vzero; vzero] in
+  Forall2 Inv sts0 ps0 /\ legal_hist ps0 rounds /\
+  (exists s1 s2 s3, hist sts0 rounds s3 /\ hist_exec sts0 rounds = [s1; s2; s3] /\
+     map rec_of s1 = [mk 3 9 83 (-3) 7 2 0; mk 3 9 83 (-3) 7 2 0; mk 3 9 83 (-3) 7 2 0] /\
+     map rec_of s2 = [mk 3 9 83 (-3) 7 2 0; mk 1 4 16 4 4 2 2; mk 1 4 16 4 4 2 2] /\
+     map v_dirty s3 = [1; 1; 0] /\ map v_count s3 = [0; 0; 1]) /\
+  ghist ps0 rounds = [Some []; Some []; None].
+Proof.
+  cbv zeta. split; [repeat constructor|]. split.
+  - simpl. repeat split; repeat constructor; discriminate.
+  - split; [|reflexivity].
+    eexists; eexists; eexists. split; [|split; [reflexivity|repeat split; reflexivity]].
+    eapply hist_cons; [apply round_exec_is_round; [discriminate|reflexivity]|].
+    eapply hist_cons; [apply round_exec_is_round; [discriminate|reflexivity]|].
+    eapply hist_cons; [apply round_exec_is_round; [discriminate|reflexivity]|]. apply hist_nil.
 Qed.
